@@ -4,7 +4,7 @@
   sequence plus repeats of nodes that already appeared (`RepA`). Invariants: the model's `_seen_fragments` set is
   always contained in the specification's `visitedFragments`; the closure invariant on the visited set.
 -/
-import PyGqlModel.Props.C04_reach
+import PyGqlModel.Lemmas.C04Reach
 
 set_option linter.unusedSimpArgs false
 set_option linter.unusedVariables false
